@@ -154,8 +154,11 @@ pub fn any_stream(rng: &mut Rng, m: &Model, n: usize, max: usize) -> (Vec<u8>, &
             // pad a valid unit with a long string argument up to the target length
             let head: &[u8] = if m.spelled.iter().any(|sp| sp.path == ["STR"]) { b"STR \"" } else { b"ECHO? \"" };
             let mut msg = head.to_vec();
+            // (sometimes with newlines inside the payload, so that a terminator-looking
+            // byte sits in the part that overflows the buffer)
+            let alphabet: &[u8] = if rng.chance(1, 3) { b"abcdefgh;,: \n\n" } else { b"abcdefgh;,: " };
             while msg.len() + 2 < target {
-                msg.push(*rng.pick(b"abcdefgh;,: "));
+                msg.push(*rng.pick(alphabet));
             }
             msg.extend_from_slice(b"\"\n");
             s.extend_from_slice(&msg);
